@@ -25,6 +25,10 @@ func gen(c *hmain.Ctx) {
 	add("two-holders", pipedrv.FamTwoHolders, 60)
 	add("retry", pipedrv.FamRetry, 30)
 	add("deadqueue", pipedrv.FamDeadQ, 30)
+	// two committers on one stream (batch worker vs. the owning processor's discard): a commit number that moves
+	// backwards leaves the stream detaching for ever - later events are accepted and never committed (seed C02 round 4)
+	add("commit-race", pipedrv.FamCommitRace, 6)
+	add("discard-before-hold", pipedrv.FamDiscardBeforeHold, 20)
 	for i := 0; i < 4; i++ {
 		jobs = append(jobs, &pipedrv.Job{Stream: "deadqueue", Case: pipedrv.DeadQOvertake(1+i%2, 120+20*i, 50+10*i)})
 	}
